@@ -216,8 +216,8 @@ def m_key_wrapping_data(I, args, kw):
     if len(args) != 1 or kw:
         return NotImplemented
     obj = args[0]
-    if not isinstance(obj, Obj):
-        return NotImplemented
+    if not isinstance(obj, Obj) or not obj.meta.get('db'):
+        return NotImplemented       # only for stored objects of the abstract store (handler pass)
     src = obj.meta.get('copy_of') or obj
     memo = I.path.ghost.setdefault('kwd', {})
     if id(src) not in memo:
@@ -233,6 +233,11 @@ QUALNAME_MODELS = {'kmip.core.enums.get_enumerations_from_bit_mask': m_enumerati
 M.QUALNAME_MODELS = QUALNAME_MODELS
 
 NORAISE = set()        # ids of natives known not to raise
+# descriptor objects of the cryptography package (hash algorithms, asymmetric paddings): their
+# constructors are assumed not to raise for the argument-less / descriptor-only uses in this code base
+NORAISE_PREFIXES = ('cryptography.hazmat.primitives.hashes.', 'cryptography.hazmat.primitives.asymmetric.padding.')
+NORAISE_NAMES = {'posix.urandom', 'os.urandom', 'nt.urandom',
+                 'cryptography.hazmat.backends.default_backend'}   # assumed not to raise
 EXTERNAL_HOOK = [None]   # optional callback(I, f, args, kw) -> value or NotImplemented
 
 
@@ -260,7 +265,9 @@ def native_call(I, f, args, kw):
         return None
     if not I.path.session.__dict__.get('allow_external', False):
         raise OutOfFragment("call of external %s.%s" % (mod, name))
-    return opaque_external(I, "%s.%s" % (mod, name), args, kw)
+    return opaque_external(I, "%s.%s" % (mod, name), args, kw,
+                           may_raise=("%s.%s" % (mod, name)) not in NORAISE_NAMES and
+                           not ("%s.%s" % (mod, name)).startswith(NORAISE_PREFIXES))
 
 
 def _is_pure_native(f):
@@ -318,6 +325,7 @@ def opaque_getattr(I, v, name):
     if v.pykind in ('str', 'bytes', 'int', 'list', 'dict'):
         return _pyvc().BoundMethod(v, _OpaqueMethod(name))
     r = Opaque('object', v.name + '.' + name, v.taint, v.facts & {'noraise', 'logger'})
+    r.fields['__owner__'] = v          # the object this attribute / bound method belongs to
     v.fields[name] = r
     return r
 
